@@ -4,21 +4,46 @@
     [erase_op] replaces [NewCutoff CEq a] by [NewCutoff CNever a] and [NewVar v true] (VarEqual) by
     [NewVar v false]; node ids are creation indices, so both histories name the same nodes.
 
-    STATUS: PARTIAL.  Full statement: for every [os] with [hist_ok mh os], [map erase_op os] is
-    [hist_ok] too and after every pass both runs hold the same values.  Proved: the second half,
-    for histories on which BOTH runs are [hist_ok] (the checker [twin_ok] evaluates both), without
-    parity cutoffs and without Var.Update.  Missing:
-    - that the erased history runs at all: its Observe / Unobserve / AddInput / RemoveInput must be
-      shown to succeed (no height-limit or cycle rejection, no crash) because the original's did,
-      i.e. that the graph STRUCTURE evolves identically in both runs -- a simulation of
-      becameNecessaryRecursive / removeParents / adjustHeights under a relation that lets kinds
-      flags, values, stamps and the heap differ (the same engine-wide congruence that
-      C04_history_mixed_partial lacks).  On 100 generated `cutoffs` histories the twin always ran,
-      with equal registered sets and equal heights after every operation;
+    STATUS: FULL for the fragment without parity cutoffs, Var.Update and cancelled passes
+    ([C11_history_twin]): whenever the history runs ([hist_ok], only the ORIGINAL is evaluated), so does
+    its twin, and after every pass the same nodes are registered, the observers are the same and every
+    registered node holds the same value in both runs.  That the twin runs at all is the structural
+    congruence of StructCongruence.v in skeleton mode (kinds up to erasure; values, stamps, [pending]
+    and the recompute heap free) plus PassPlanProofs.pass_total.  Excluded, and why:
+    - [StabilizeCancelled]: NECESSARY ([C11_history_cancelled_refuted]).  A Stabilize with a
+      cancelled context returns ErrCancelled exactly when something is queued; after a VarEqual was
+      written with the value it holds nothing is queued in the original, the twin has queued the var;
     - parity cutoffs: their held value is an input of [Spec.eval] and no invariant ties it to the
-      input's value (on the generated histories lock-step held with them as well);
-    - Var.Update reads the [pending] field, which no invariant describes between operations. *)
+      input's value (on 100 generated `cutoffs` histories lock-step held with them as well);
+    - Var.Update reads the [pending] field, which no invariant describes between operations.
+    [C11_history_twin_partial] (both runs evaluated by the checker) is kept; it also covers histories
+    with cancelled passes on which both runs happen to succeed. *)
 From incr Require Import Base Heap HeapSpec EngineDefs Engine EngineRun EngineWf Spec Par StaticHistory TwinHistory.
+
+(** whenever the history runs, so does its twin; after every pass: the same observers, the same
+    registered nodes, every observer and every registered node reads the same value in both runs *)
+Theorem C11_history_twin : forall mh os1 o os2,
+  (0 < mh)%nat -> twin_full_ok mh (os1 ++ o :: os2) = true -> is_pass o = true ->
+  exists sA sB, hist_run (init mh) (os1 ++ [o]) = Some sA /\ hist_run (init mh) (map erase_op (os1 ++ [o])) = Some sB /\
+    obs sA = obs sB /\
+    (forall x n, obs sA !! x = Some n -> valueOf sA n = valueOf sB n) /\
+    (forall n, inGraph (nd sB n) = inGraph (nd sA n)) /\
+    (forall n, inGraph (nd sA n) = true -> valueOf sA n = valueOf sB n).
+Proof. exact twin_history_full_checked. Qed.
+Print Assumptions C11_history_twin.
+
+(** at EVERY boundary the twin has run, in lock step and with the same graph structure (declared
+    inputs, edges, heights, registration, observers, registry, counters) *)
+Theorem C11_history_twin_runs : forall mh os sA,
+  (0 < mh)%nat -> forallb twin_full_allowed os = true -> hist_run (init mh) os = Some sA ->
+  exists sB, hist_run (init mh) (map erase_op os) = Some sB /\ TW sA sB /\ SR false sA sB.
+Proof. exact twin_runs. Qed.
+Print Assumptions C11_history_twin_runs.
+
+(** the new checker implies the old one *)
+Theorem C11_twin_full_ok_twin : forall mh os, (0 < mh)%nat -> twin_full_ok mh os = true -> twin_ok mh os = true.
+Proof. exact twin_full_ok_twin. Qed.
+Print Assumptions C11_twin_full_ok_twin.
 
 (** after every pass of the history: the same observers, every observer reads the same value in
     both runs, and so does every node registered in both *)
@@ -48,9 +73,14 @@ Print Assumptions C11_eval_twin.
     the first pass (a no-op: nothing queued; the twin queues node 0); node 3 is a CutoffEqual over a
     constant map, which cuts in the third pass (the twin's never cuts); same values everywhere *)
 Example C11_history_ex :
-  length tx = 14%nat /\ twin_ok 16 tx = true /\
+  length tx = 14%nat /\ twin_ok 16 tx = true /\ twin_full_ok 16 tx = true /\
   queued_after tx 9 = [] /\ queued_after (map erase_op tx) 9 = [0%nat] /\
   cut_verdicts (tx_final tx) = [(3%nat, true); (3%nat, false)] /\
   cut_verdicts (tx_final (map erase_op tx)) = [(3%nat, false); (3%nat, false)] /\
   obsValues (tx_final tx) = [(6%nat, 4)] /\ obsValues (tx_final (map erase_op tx)) = [(6%nat, 4)].
 Proof. split; [reflexivity|]. repeat (split; [vm_compute; reflexivity|]). vm_compute; reflexivity. Qed.
+
+(** the exclusion of cancelled passes is necessary: [tx] up to the no-op write, then a cancelled pass *)
+Example C11_history_cancelled_refuted :
+  forallb twin_allowed tx_cancel = true /\ hist_ok 16 tx_cancel = true /\ hist_ok 16 (map erase_op tx_cancel) = false.
+Proof. split; [reflexivity|]. split; vm_compute; reflexivity. Qed.
